@@ -296,16 +296,17 @@ func runC10(w *World, r *Report) {
 					}
 				}
 			}
+			// the decrement is in the arm itself or in a common tail every arm runs through
 			dec := false
-			for _, in := range alt.Block.Instrs {
-				if mu, ok := in.(*ssa.MapUpdate); ok && strings.HasSuffix(Path(mu.Map), "dpq.requestCounts") {
+			Instrs(enq, func(in ssa.Instruction) {
+				if mu, ok := in.(*ssa.MapUpdate); ok && strings.HasSuffix(Path(mu.Map), "dpq.requestCounts") && (mu.Block() == alt.Block || domInstr(mu, alt.Ret) && domInstr(sel, mu)) {
 					if bo, ok := mu.Value.(*ssa.BinOp); ok && bo.Op == token.SUB && isIntConst(bo.Y, 1) && strings.HasSuffix(Path(mu.Key), "req.priority") {
 						if _, held := la.HeldAt(mu)["param:dpq.mutex"]; held {
 							dec = true
 						}
 					}
 				}
-			}
+			})
 			switch {
 			case arm == iDone && iDone >= 0:
 				r.Check(b && dec, "R6", "Enqueue/arm-done", posOf(alt.Ret), "doneCh arm returns %v and decrements requestCounts under the lock=%v (want true,true)", b, dec)
